@@ -31,6 +31,9 @@ def main(argv):
     faulthandler.dump_traceback_later(hard, exit=True)
     repo_sanity()
     ctx = Ctx(module, tier, seed, shard, nshards)
+    if getattr(module, "PRELUDE", True):
+        from . import prelude
+        ctx.count("prelude-calls", prelude.run())        # earlier, unrelated use of the library in this process (see prelude.py)
     ctx.soft_s = getattr(module, "SOFT_S", {"quick": 20, "thorough": 240})[tier] * float(os.environ.get("VERIF_SOFT_SCALE", "1"))
     module.run(ctx)
     res = ctx.result()
